@@ -13,8 +13,8 @@ LEVEL = "exploration"
 RULE = ("weight tables: exhaustive over tiny shapes/alphabets, sampled shapes <= 6x7 with ties, dtype-boundary values, "
         "floats, bools, sparse tables, negative weights, plus the tables built by WeightedBipartiteMatcher inside real "
         "diffs; non-trivial = at least 2x2 with two distinct weights or a missing pair; distinct = distinct table")
-ASSUMPTIONS = ["optimality is judged only for complete tables whose weights are exactly representable in float64 "
-               "(|w| <= 2**53): the routine documents native-type arithmetic",
+ASSUMPTIONS = ["optimality is judged only for complete tables whose possible totals are exactly representable in float64 "
+               "(sum of the min(n,m) largest |w| <= 2**53): the routine documents native-type arithmetic",
                "for sparse tables only validity (one-to-one, existing pairs, true weights) is judged, as the property states",
                "bool tables with missing pairs may raise the documented ValueError"]
 MINIMUMS = {"quick": {"tables_judged": 20000, "optimality_judged": 15000, "engine_tables": 50},
@@ -137,7 +137,9 @@ def judge(table, n, m, result, ctx=None):
     if complete and n and m:
         if len(result) != min(n, m):
             diags.append({"kind": "cardinality", "paired": len(result), "expected": min(n, m)})
-        exact_ok = all(isinstance(w, (bool, float)) or abs(w) <= 2**53 for w in present)
+        # the solver adds weights in float64: totals (not just single weights) must stay exactly representable
+        ints = [abs(w) for w in present if not isinstance(w, (bool, float))]
+        exact_ok = sum(sorted(ints)[-min(n, m):]) <= 2**53
         if exact_ok and not diags:
             if ctx is not None:
                 ctx.count("optimality_judged")
